@@ -314,13 +314,34 @@ Proof.
   exists data. split; [exact E|exact Hd].
 Qed.
 
-(* an integer-valued metric with the (default) bca method: Scores.bootstrap_ci raises whatever the sampler does *)
-Lemma int_metric_bca_raises (S K N H : Type) dynamic_choice builtin_sample getattr_type (Phi PhiInv pow15 : Q -> Q) yshape
+(* an integer-valued metric (e.g. confusion-matrix counts) is treated like the same values as floats, for every method *)
+Lemma int_metric_same (S K N H : Type) dynamic_choice builtin_sample getattr_type (Phi PhiInv pow15 : Q -> Q) dt yshape
     (self : S) (metric : metric_arg S K (list rate) N) alpha (cfg : config S) (hist : nat -> H) (kw : K) :
-  bootstrap_method cfg = MBca ->
-  bootstrap_ci_m S K (list rate) N H _ dynamic_choice builtin_sample getattr_type (utils_ci_dt Phi PhiInv pow15 DInt yshape)
-                 self metric alpha cfg hist kw = Err.
+  bootstrap_ci_m S K (list rate) N H _ dynamic_choice builtin_sample getattr_type (utils_ci_dt Phi PhiInv pow15 dt yshape)
+                 self metric alpha cfg hist kw
+  = bootstrap_ci_m S K (list rate) N H _ dynamic_choice builtin_sample getattr_type (utils_ci Phi PhiInv pow15 yshape)
+                 self metric alpha cfg hist kw.
+Proof. reflexivity. Qed.
+
+(* bootstrap_ci never fails because of the CI routine: if every sampling call succeeds, bc/bca return an array
+   of shape metric_shape+(2,) whose entry j is the one-component interval of replicate column j — (NaN, NaN)
+   exactly for the components that are NaN in every sample *)
+Lemma bootstrap_ci_m_total (S K N H : Type) dynamic_choice builtin_sample getattr_type (Phi PhiInv pow15 : Q -> Q) yshape
+    (self : S) (metric : metric_arg S K (list rate) N) alpha (cfg : config S) (hist : nat -> H) (kw : K) rows :
+  (forall x, 0 <= Phi x /\ Phi x <= 1) ->
+  bootstrap_method cfg <> MQuantile ->
+  bootstrap_metric S K (list rate) N H dynamic_choice builtin_sample getattr_type self metric cfg hist kw = Ok rows ->
+  let hat := resolve_metric S K (list rate) N getattr_type self metric self kw in
+  length hat = prod_shape yshape ->
+  exists data,
+    bootstrap_ci_m S K (list rate) N H _ dynamic_choice builtin_sample getattr_type (utils_ci Phi PhiInv pow15 yshape)
+                   self metric alpha cfg hist kw = Ok (yshape ++ [2%nat], data) /\
+    forall j, (j < prod_shape yshape)%nat ->
+      ci_col Phi PhiInv pow15 (bootstrap_method cfg) (column rows j) (nth j hat None) alpha
+      = Ok (nth (j * 2 + 0) data None, nth (j * 2 + 1) data None).
 Proof.
-  intro Hm. rewrite bootstrap_ci_m_spec. destruct (bootstrap_metric _ _ _ _ _ _ _ _ _ _ _ _ _); [|reflexivity].
-  unfold utils_ci_dt, bootstrap_ci_dt. now rewrite Hm.
+  intros Hr Hm Erows hat Hl. rewrite bootstrap_ci_m_spec, Erows. fold hat.
+  destruct (bootstrap_ci_bcx_total Phi PhiInv pow15 Hr (bootstrap_method cfg) yshape rows hat alpha Hm Hl) as (data & E & _ & Hd).
+  exists data. split; [|exact Hd]. unfold utils_ci, bootstrap_ci.
+  destruct (bootstrap_method cfg); [congruence|exact E|exact E].
 Qed.
